@@ -3,7 +3,6 @@
 out=/verif/notes/seeded_results.txt
 while [ $# -ge 2 ]; do
   id=$1; dir=$2; shift 2
-  while pgrep -f "tools/run_mutants.sh|tools/mut.py" > /dev/null; do sleep 30; done
   conf=$(/verif/tools/confirm_seed.sh $dir 2>&1 | tr '\n' ' ' | cut -c1-600)
   res=$(cd /verif && tools/mut.py $id $dir/patch.diff 2>&1 | grep -E "^(CAUGHT|MISSED|ERROR)|violation sig" | head -4 | tr '\n' ' ' | cut -c1-500)
   echo "$(date -u +%T) $id $dir | $conf | $res" >> $out
